@@ -243,7 +243,19 @@ func c13Concurrent(ch *zsim.Choices, trace bool) *RunResult {
 		budget := 36 / (nTasks * phases)
 		for ph := 0; ph < phases; ph++ {
 			disabled := ph == 1
+			// the switch is flipped while another goroutine re-asserts the (unchanged) global
+			// level: the two settings are independent and neither call may undo the other
+			setter := zsim.Spawn(fmt.Sprintf("p%d.setlevel", ph), func() {
+				for i := 0; i < 3; i++ {
+					zerolog.SetGlobalLevel(glob)
+					zsim.Yield("setlevel")
+				}
+			})
 			zerolog.DisableSampling(disabled)
+			zsim.Join(setter)
+			if zerolog.GlobalLevel() != glob {
+				zsim.Fail("C13.level_gate", "DisableSampling(%v) concurrent with SetGlobalLevel(%v) left the global level at %v", disabled, glob, zerolog.GlobalLevel())
+			}
 			if disabled {
 				zsim.Fault("sampling_disabled_phase")
 			}
